@@ -520,7 +520,7 @@ def st_lut(draw):
 
 
 OPS = ["split", "single", "routes", "lin", "rescale", "other", "lutform",
-       "dataset", "copyfalse"]
+       "dataset", "copyfalse", "lutrewrite"]
 
 
 @st.composite
@@ -1147,6 +1147,39 @@ def _do_op(op, spec, rec, cx, cfg, v, route, x_in, d_in, x_ref, d_ref, temps, E0
             rec.check(eqnan(e, E0), f"lutform/{fname}/{tag}",
                       lambda: f"the same LUT handed over as {fname} gives a different "
                               "result than as " + spec["lut"]["how"])
+    elif name == "lutrewrite":
+        # A user LUT handed over as *path* is the file content at call time:
+        # rewriting the file at the same path (other E values) must be seen by
+        # the next call, restoring it must restore the results (no stale file cache).
+        if not (cx.kind.startswith("user")
+                and spec["lut"]["how"] in ("path", "pathlib")):
+            rec.skip("op:lutrewrite-needs-user-lut-path")
+            return
+        rec.cls("op:lutrewrite")
+        vnum = dict(medium=float(v["eta"]), temperature=None, visc_model=None)
+        e_before = call(cx, rec, x_in, d_in, cfg, vnum)
+        orig = pathlib.Path(cx.lut_file).read_bytes()
+        nodes0, meta0, feats0 = parse_lut_text(cx.lut_file)
+        nodes1 = nodes0.copy()
+        nodes1[:, 2] *= 1.0 + (int(op["seed"]) % 7 + 1) / 4.0
+        keep_model = cx.model
+        try:
+            write_lut_text(cx.lut_file, nodes1, feats0[0], meta0["channel_width"],
+                           meta0["flow_rate"], meta0["fluid_viscosity"],
+                           meta0["identifier"])
+            nodes2, meta2, feats2 = parse_lut_text(cx.lut_file)
+            cx.model = Model(nodes2, feats2[0], meta2["channel_width"],
+                             meta2["flow_rate"], meta2["fluid_viscosity"])
+            e_new = call(cx, rec, x_in, d_in, cfg, vnum)
+            check_oracle(rec, cx, e_new, x_ref, d_ref, cfg, float(v["eta"]), "numeric",
+                         label="lutrewrite")
+        finally:
+            cx.model = keep_model
+            pathlib.Path(cx.lut_file).write_bytes(orig)
+        e_back = call(cx, rec, x_in, d_in, cfg, vnum)
+        rec.check(eqnan(e_back, e_before), f"lutrewrite/restored/{cx.tag}",
+                  "after restoring the LUT file the results differ from those "
+                  "before it was rewritten")
     elif name == "dataset":
         if cx.featx != "area_um":
             rec.skip("op:dataset-needs-area-lut")
